@@ -25,7 +25,7 @@ MUST_REACH = ["hessenbergize:n<=2", "householder:alpha_zero", "class:already_hes
 C = 1e3
 CLASSES = ["cancelling_tail", "equal_moduli_tail", "gauss", "hessenberg", "upper_tri", "lower_tri", "hermitian", "zero_subcolumns", "zero_matrix", "identity", "int", "sparse",
            "pure_imag", "single_axis", "rank1", "nilpotent", "scaled_small", "scaled_big", "layout", "tridiag", "unitary", "companion",
-           "near_hessenberg", "graded_columns"]
+           "near_hessenberg", "graded_columns", "nearly_hermitian"]
 
 _REACH = None
 
@@ -109,6 +109,11 @@ def make(rng, cls, n):
         for j in range(max(0, n - 2)):
             c[j + 2:, j] = rng.standard_normal((n - j - 2, 4)) * 10.0 ** (-float(rng.integers(4, 13)))
         return refq.qa(c)
+    if cls == "nearly_hermitian":
+        # Hermitian up to a relative perturbation of 1e-5 .. 1e-12: neither the Hermitian nor the generic class
+        Hh = refq.randq(rng, n, n)
+        Hh = Hh + refq.herm(Hh)
+        return Hh + refq.randq(rng, n, n) * (10.0 ** -float(rng.integers(5, 13)))
     if cls == "graded_columns":
         c = rng.standard_normal((n, n, 4)) * (10.0 ** (-rng.integers(0, 10, size=n).astype(float)))[None, :, None]
         return refq.qa(c)
